@@ -212,6 +212,9 @@ func (sp *SimpleProof) StringIndented(indent string) string {
 // If the length of the innerHashes slice isn't exactly correct, the result is nil.
 func computeHashFromAunts(index int, total int, leafHash []byte, innerHashes [][]byte) []byte {
 	// Recursive impl.
+	if index < 0 {
+		return nil
+	}
 	if index >= total {
 		return nil
 	}
